@@ -7,6 +7,7 @@
   its value.
 -/
 import MpirProofs.Lemmas.AliasRootrem
+import MpirProofs.Lemmas.AliasMul
 namespace Mpir.AliasMem
 open Mpir
 
@@ -77,5 +78,49 @@ example : errOf3 (rootrem 0 3 0 0 exSt6) = "div0" := by decide
 -- refuses a root that overlaps the operand — and a remainder that does (:64-67)
 example : (match mpn_rootrem 0 3 0 4 3 exSt6 with | .error e => e | .ok _ => "ok") = "ub:mpn_rootrem operands overlap" := by decide
 example : (match mpn_rootrem 3 0 0 4 3 exSt6 with | .error e => e | .ok _ => "ok") = "ub:mpn_rootrem operands overlap" := by decide
+
+/-! ## mpz_mul -/
+
+/-- mpz_mul (mpz/mul.c), every choice of w, u, v (w = u, w = v, u = v, all three the same variable, all distinct):
+    w holds the product of the values u and v had before the call, every other variable keeps its value.  What the C does
+    for it: the one-limb arm works in place through mpn_mul_1 (:69-78, `PTR (u)`, `PTR (v)[0]` fetched after the
+    reallocation); the basecase shortcut is taken only if `w != u && w != v` (:83); otherwise, if the block of w is too
+    small it is replaced by free + allocate — with the release postponed until after the multiplication when that block is
+    an operand (`free_me`, :118-131, :164-165) — and if it is large enough and is an operand, the operand is copied to TMP
+    space, `vp` following `up` when all three are the same block (:133-152).  SIZ (w) from the top product limb (:100,
+    :160-161) is the normalised size (`mul_size`). -/
+theorem mpz_mul_ptr_spec {s : St} (h : Inv s) {w u v : Nat} (hw : w < s.nv) (hu : u < s.nv) (hv : v < s.nv) :
+    ∃ s', mpz_mul w u v s = .ok s' ∧ Inv s' ∧ s'.nv = s.nv ∧ s'.value w = s.value u * s.value v ∧
+      ∀ i, i < s.nv → i ≠ w → s'.value i = s.value i :=
+  mpz_mul_ok h hw hu hv
+
+def exSt8 : St := ofInts [2 ^ 200 + 12345, -(2 ^ 130 + 7), 7, 2 ^ 70 + 1]
+/-- variable 0 holds a 2-limb value in a 4-limb block -/
+def exSt9 : St := match mpz_set 0 3 exSt8 with | .ok s => s | .error _ => exSt8
+-- w = u with a block that is too small (4 < 7 limbs): new block 4, the old block 0 is released after the product (free_me)
+example : look3 (mpz_mul 0 0 1 exSt8) 2 = .ok [((2 ^ 200 + 12345) * -(2 ^ 130 + 7), 7, 4), (-(2 ^ 130 + 7), 3, 1)] := by decide +kernel
+-- w = u = v: a square, both factors are the old block
+example : look3 (mpz_mul 3 3 3 exSt8) 4 =
+    .ok [(2 ^ 200 + 12345, 4, 0), (-(2 ^ 130 + 7), 3, 1), (7, 1, 2), ((2 ^ 70 + 1) * (2 ^ 70 + 1), 4, 4)] := by decide +kernel
+-- all distinct, 7 limbs ≤ MUL_KARATSUBA_THRESHOLD: MPZ_REALLOC and the basecase
+example : look3 (mpz_mul 2 0 1 exSt8) 3 =
+    .ok [(2 ^ 200 + 12345, 4, 0), (-(2 ^ 130 + 7), 3, 1), ((2 ^ 200 + 12345) * -(2 ^ 130 + 7), 7, 4)] := by decide +kernel
+-- one-limb v: mpn_mul_1 in place after the block of w = u moved; w = v: the limb of v is read from the moved block
+example : look3 (mpz_mul 0 0 2 exSt8) 1 = .ok [((2 ^ 200 + 12345) * 7, 5, 4)] := by decide +kernel
+example : look3 (mpz_mul 2 1 2 exSt8) 3 = .ok [(2 ^ 200 + 12345, 4, 0), (-(2 ^ 130 + 7), 3, 1), (-(2 ^ 130 + 7) * 7, 4, 4)] := by
+  decide +kernel
+-- w = u resp. w = v in a block that is large enough (2 + 2 ≤ 4 limbs): TMP copy of the operand, the block stays
+example : look3 (mpz_mul 0 0 3 exSt9) 4 =
+    .ok [((2 ^ 70 + 1) * (2 ^ 70 + 1), 4, 0), (-(2 ^ 130 + 7), 3, 1), (7, 1, 2), (2 ^ 70 + 1, 2, 3)] := by decide +kernel
+example : look3 (mpz_mul 0 3 0 exSt9) 4 =
+    .ok [((2 ^ 70 + 1) * (2 ^ 70 + 1), 4, 0), (-(2 ^ 130 + 7), 3, 1), (7, 1, 2), (2 ^ 70 + 1, 2, 3)] := by decide +kernel
+-- negative examples: each precaution of mul.c removed
+-- (a) the old block released at once although it is an operand (no `free_me`): the product reads a freed block
+example : errOf3 (mpz_mulV { deferFree := false } 0 0 1 exSt8) = "ub:read of a freed block" := by decide +kernel
+-- (b) the basecase shortcut without `(w != u) && (w != v)`: mpn_mul_basecase would write the product over its factor
+example : errOf3 (mpz_mulV { smallGuard := false } 0 0 1 exSt8) = "ub:mpn_mul product overlaps a factor" := by decide +kernel
+-- (c) no TMP copy of the operand that is the destination
+example : errOf3 (mpz_mulV { copyOperand := false } 0 0 3 exSt9) = "ub:mpn_mul product overlaps a factor" := by decide +kernel
+example : errOf3 (mpz_mulV { copyOperand := false } 0 3 0 exSt9) = "ub:mpn_mul product overlaps a factor" := by decide +kernel
 
 end Mpir.AliasMem
